@@ -218,6 +218,7 @@ contract(
     props=["C20", "C02"],
     params={"digits": Str, "token": TOKEN},
     pre=["len(digits) == 4"],
+    unroll={0: 4},          # exactly four characters (precondition): the loop is unrolled, with an unwinding obligation
     post=["all_hex(digits)", "result == hexval(digits)", "0 <= result and result <= 0xFFFF"],
     raises={"LiquidSyntaxError": "not all_hex(digits)"},
     returns=Int,
